@@ -210,7 +210,9 @@ def regex_batch_cases(ctx, rng, n, stream):
         if not replaced:
             continue
         rxs = [conv(f) for f in frags]
-        tab = [(rx, [m for m in nodes if _re.match(rx, m)]) for rx in rxs]
+        from ..rules_common import _safe_matches
+
+        tab = [(rx, _safe_matches(rx, nodes)) for rx in rxs]
         cases.append({"nodes": nodes, "imps": c["imps"], "lim": None, "ops": ops, "spec": None, "mtab": tab})
     res = evaluate(ctx, cases)
     for case, impl, ans in res:
